@@ -30,6 +30,54 @@ def _txt(n):
     return ast.unparse(n)
 
 
+def _ends_in_return(block):
+    if not block:
+        return False
+    last = block[-1]
+    if isinstance(last, ast.Return):
+        return True
+    return isinstance(last, ast.If) and _ends_in_return(last.body) \
+        and _ends_in_return(last.orelse)
+
+
+def _to_tail(stmts):
+    """ statements with early returns -> the same statements with what
+    follows an `if` whose one branch returns moved into its other branch, so
+    that every `return` is the last statement of its branch.  None if that
+    is not possible (a return inside a loop / try / with, dead code). """
+    out = []
+    for i, s in enumerate(stmts):
+        if isinstance(s, ast.Return):
+            if i != len(stmts) - 1:
+                return None
+            out.append(s)
+            return out
+        if isinstance(s, ast.If):
+            body, orelse = _to_tail(s.body), _to_tail(s.orelse)
+            if body is None or orelse is None:
+                return None
+            rest = stmts[i + 1:]
+            b_ret, o_ret = _ends_in_return(body), _ends_in_return(orelse)
+            if rest and b_ret != o_ret:
+                rest_t = _to_tail(rest)
+                if rest_t is None:
+                    return None
+                new = ast.If(test=s.test,
+                             body=body if b_ret else body + rest_t,
+                             orelse=orelse + rest_t if b_ret else orelse)
+                out.append(ast.copy_location(new, s))
+                return out
+            if rest and b_ret and o_ret:
+                return None
+            out.append(ast.copy_location(
+                ast.If(test=s.test, body=body, orelse=orelse), s))
+            continue
+        if any(isinstance(n, ast.Return) for n in ast.walk(s)):
+            return None
+        out.append(s)
+    return out
+
+
 class Walker:
     def __init__(self, cfg):
         self.locks = cfg.get('locks', {})          # source text -> name
@@ -45,6 +93,9 @@ class Walker:
         self.klass = None
         self.module = None
         self.inlining = []
+        # > 0 while walking a helper in tail form: its returns end the
+        # helper, not the function it is inlined into, so they emit no Ret
+        self.tail_inline = 0
 
     # ----- private helpers: `self._helper(...)` whose body was extracted
     # from the function (a refactoring that keeps every event where it was)
@@ -79,7 +130,18 @@ class Walker:
         if any(isinstance(n, (ast.Yield, ast.YieldFrom)) for n in ast.walk(fn)):
             return None
         if rets and (len(rets) != 1 or fn.body[-1] is not rets[0]):
-            return None
+            # early returns: `if c: A; return x` followed by REST is the same
+            # as `if c: A; return x  else: REST`; if that puts every return
+            # at the end of its branch the helper can still be walked in
+            # place (see _to_tail); otherwise: no event, as before
+            tail = _to_tail(fn.body)
+            if tail is None:
+                return None
+            fn = ast.FunctionDef(name=fn.name, args=fn.args, body=tail,
+                                 decorator_list=fn.decorator_list,
+                                 returns=None, type_comment=None,
+                                 lineno=fn.lineno, col_offset=0)
+            fn._tail_form = True
         return fn
 
     def inline(self, e, fn):
@@ -88,6 +150,9 @@ class Walker:
         for k in e.keywords:
             self.expr(k.value)
         self.inlining.append(fn.name)
+        tail = getattr(fn, '_tail_form', False)
+        if tail:
+            self.tail_inline += 1
         try:
             for st in fn.body:
                 if isinstance(st, ast.Return):
@@ -96,6 +161,8 @@ class Walker:
                     self.stmt(st)
         finally:
             self.inlining.pop()
+            if tail:
+                self.tail_inline -= 1
 
     def emit(self, *ev):
         self.out.append(ev)
@@ -259,7 +326,8 @@ class Walker:
             return
         if isinstance(s, ast.Return):
             self.expr(s.value)
-            self.emit('Ret')
+            if not self.tail_inline:
+                self.emit('Ret')
             return
         if isinstance(s, (ast.Break, ast.Continue)):
             self.emit('Break' if isinstance(s, ast.Break) else 'Continue')
